@@ -241,6 +241,21 @@ class Bench:
         return self
 
 
+def prim(kind: str, adapter: bool, *a: Any, **kw: Any) -> Any:
+    """An AnyIO synchronisation primitive; with `adapter` the wrapper class a user gets when the object
+    is created while no event loop is running (module-level primitives): it forwards to a backend
+    object created on first use, and has to behave identically."""
+    import anyio
+    from anyio._core import _synchronization as S
+
+    if adapter:
+        cls = {"Lock": S.LockAdapter, "Semaphore": S.SemaphoreAdapter,
+               "CapacityLimiter": S.CapacityLimiterAdapter, "Event": S.EventAdapter}[kind]
+    else:
+        cls = getattr(anyio, kind)
+    return cls(*a, **kw)
+
+
 def compare(lines: list[list[str]], replies: list[str]) -> tuple[int, str] | None:
     """first index where model reply and implementation differ"""
     for i, ((req, exp), got) in enumerate(zip(lines, replies)):
